@@ -120,6 +120,13 @@ let conn = function
     let wire = List.concat (List.map (fun (_, d, _) -> d) log) in
     let mrecv = mtcp_server_opaque wire in
     if mrecv <> received then mism (Printf.sprintf "server: model hands up %d bundles, impl %d (or contents differ)" (List.length mrecv) (List.length received));
+    (* theorem C12_mtcp_bundles: the same loop delimiting every bundle by Model/Bundle.v dec_bundle, as the Go server
+       does (now = 0: no wall-clock lifetime check, the implementation accepted the bundles at its own time) *)
+    let mrecv_b = List.map (fun b -> match enc_bundle b with Some bs -> bs | None -> [])
+        (mtcp_server (fun _ s -> dec_bundle (n_of_int 0) s) wire) in
+    if mrecv_b <> received then
+      mism (Printf.sprintf "server: model parsing with dec_bundle hands up %d bundles, impl %d (or contents differ)" (List.length mrecv_b) (List.length received))
+    else if received <> [] then tag "server-dec_bundle";
     let sent = List.rev !sent in
     let sent_raw = List.map fst sent in
     if not (is_prefix received sent_raw) then
